@@ -369,6 +369,7 @@ def build_units(conn):
                                 length_width=(extra or {}).get("lw"))
             raw = Q.protect(keys, hdr, pn, pnlen, payload, True)
         pm = {"d": d, "kind": kind, "space": SPACE[kind], "pn": pn, "pnlen": pnlen, "frames": meta, "level": lvl,
+              "boundary": bool((extra or {}).get("boundary")),
               "gen": sd.gen if kind == "1rtt" else None, "dcid": sd.dcid.hex()}
         return raw, sdata, pm
 
